@@ -404,6 +404,9 @@ impl Property for C17 {
             }
         }
         add(stats, "sim_guest_states", scn.ops.iter().map(|o| if let TOp::Elapse(n) = o { *n as u64 } else { 0 }).sum());
+        add(stats, "event.elapse_ops", scn.ops.iter().filter(|o| matches!(o, TOp::Elapse(_))).count() as u64);
+        add(stats, "event.cpu_register_writes", scn.ops.iter().filter(|o| !matches!(o, TOp::Elapse(_))).count() as u64);
+        add(stats, "event.tcr_writes", scn.ops.iter().filter(|o| matches!(o, TOp::Write { reg: TCR, .. })).count() as u64);
         let nontrivial = scn.ops.iter().any(|o| matches!(o, TOp::Elapse(_))) && trace.checkpoints.iter().any(|c| c.tcnt != 0 || c.tcsr & 0xe0 != 0);
         Verdict::Pass { sig: sig.0, nontrivial }
     }
